@@ -608,7 +608,7 @@ var c19Workers = []int{1, 2, 4, 16, -1}
 
 func c19ExtractCases(c *Ctx) error {
 	r := c.Rng.Fork()
-	n := c.N(24, 400)
+	n := c.N(24, 160)
 	for i := 0; i < n; i++ {
 		cr := r.Fork()
 		class := c19Classes[i%len(c19Classes)]
@@ -1163,10 +1163,10 @@ func c19ResumeCorpus(c *Ctx) error {
 
 func c19ResumeCases(c *Ctx) error {
 	r := c.Rng.Fork()
-	n := c.N(8, 80)
+	n := c.N(8, 30)
 	maxPoints := 8
 	if c.Thorough() {
-		maxPoints = 24
+		maxPoints = 16
 	}
 	for i := 0; i < n; i++ {
 		cr := r.Fork()
@@ -1242,7 +1242,7 @@ func c19RaceCases(c *Ctx, corpus bool) error {
 		ps = []c19RaceParams{{Seed: 15, Class: "wide", Flavor: "zip", Workers: 8, Resume: true}}
 	} else {
 		r := c.Rng.Fork()
-		n := c.N(2, 24)
+		n := c.N(2, 12)
 		for i := 0; i < n; i++ {
 			ps = append(ps, c19RaceParams{Seed: r.U64(), Class: []string{"big+small", "mixed", "wide", "links"}[i%4],
 				Flavor: []string{"zip", "czip", "zip", "tar"}[(i/4+i)%4], Workers: []int{2, 16, -1, 4}[i%4], Resume: i%3 != 2})
